@@ -22,6 +22,9 @@ import (
 //	scan      IO, Rev (full scan)
 //	iter      IO, IOps (positioning sequence on a fresh iterator)
 //	flush     DB.Flush
+//	ingest    Tables, A,B (DB.Ingest of freshly written external sstables; with A,B
+//	          DB.IngestAndExcise, without tables DB.Excise; only run while every
+//	          earlier commit is durable, see exec)
 //	compact   A,B (DB.Compact), Par
 //	wait      poll until no flush/compaction is running (bounded, never a verdict)
 //	restart   Close + Open on the same file system (faults stay as they are)
@@ -36,6 +39,8 @@ type Step struct {
 	IOps []dbm.IterOp  `json:"iops,omitempty"`
 	Rev  bool          `json:"rev,omitempty"`
 	Par  bool          `json:"par,omitempty"`
+	// Tables: the sstables of an "ingest" step (point sets / deletes, disjoint)
+	Tables [][]dbm.Op `json:"tables,omitempty"`
 }
 
 func (s Step) String() string {
@@ -43,6 +48,9 @@ func (s Step) String() string {
 	b.WriteString(s.K)
 	if len(s.Ops) > 0 {
 		fmt.Fprintf(&b, " %v", s.Ops)
+	}
+	for _, t := range s.Tables {
+		fmt.Fprintf(&b, " table%v", t)
 	}
 	if s.Sync {
 		b.WriteString(" sync")
